@@ -556,6 +556,8 @@ var wordPool = []string{"one", "two", "three", "polish", "Polish", "One", "ONE",
 	"horse\r", " horse", "horse ", "lab\t", "one\n", "\u00a0one",
 	// valid but unusual: a byte-order mark, a right-to-left mark, a decomposed accent, letters outside the BMP
 	// (Deseret: lower 𐐨 has the upper form 𐐀), a zero-width joiner sequence, USA / usa (ToLower is not Title's inverse)
+	// characters a careless implementation might use as a delimiter of its own
+	"alpha\x1fbeta", "\x1f", "nul\x00l", "a,b", "a|b", "a;b", "rec\x1esep", "a\x1cb", "tab\tin", "new\nline",
 	"\ufeffbom", "rtl\u200f", "e\u0301cole", "\U00010428\U00010429", "\U00010400\U00010429", "a\u200db", "usa", "USA", "iPhone", "IPhone"}
 
 // words that all change under strings.Title, including pairs of distinct words that share one
@@ -662,7 +664,7 @@ func (x *gen) customSep() string {
 	for i := 0; i < n; i++ {
 		l = append(l, outs[x.g.intn(len(outs))])
 	}
-	return fmt.Sprintf("custom:%d:%s", []int{2, 3, 7, 16}[x.g.intn(4)], encList(l))
+	return fmt.Sprintf("custom:%d:%s", []int{1, 2, 3, 7, 16}[x.g.intn(5)], encList(l))
 }
 
 func (x *gen) wlLength() int {
@@ -973,6 +975,188 @@ func (x *gen) soleWitnessOps() {
 	}
 }
 
+// metaCharBlock: characters that mean something to a formatter, a regular expression or a glob
+// are ordinary characters to a recipe. Each case draws candidates made only of the "plain"
+// characters, which cannot satisfy the required set, on a budget of two attempts: the answer is
+// the attempts error, never a password. (The candidate the filter sees is the drawn string itself,
+// whatever library routine is used to build or match it.)
+func (x *gen) metaCharBlock() {
+	cases := []struct{ allow, req, pick string }{
+		{"%", "NOVERB()!", "%"}, {"%d", "0123456789!", "%d"}, {"%sv", "nil<>", "%sv"}, {"%%", "!", "%"},
+		{"b", "a-c", "b"}, {"b", "^a", "b"}, {"x", "[]", "x"}, {"a", ".*", "a"}, {"ab", ".", "ab"}, {"z", "a|z|", "a"},
+		{"\\", "nrt0", "\\"}, {"$", "1{}", "$"}, {"w", "\\w", "w"}, {"d5", "\\d", "5"}, {"a", "[a]", "a"}, {"q", "?+", "q"},
+		{"ab", "(?i)A", "ab"}, {"é", "é", "é"}, {"e", "é", "e"}, {"\x00a", "b", "\x00a"}, {"a\x00", "\x00b", "a"},
+	}
+	// class flags are the ASCII classes: a letter or digit of the same Unicode category that is not
+	// in the class does not satisfy the requirement
+	look := []struct {
+		flag  uint32
+		allow string
+	}{{1, "ΩÉ\u0130"}, {2, "λéß"}, {4, "٣५"}, {8, "¡＠\u2010"}, {2, "ǆ"}, {1, "ǅ"}, {3, "ǅ"}}
+	for _, c := range look {
+		for _, L := range []int{1, 2, 5} {
+			var r recipeSpec
+			r.L, r.ac, r.require = L, c.allow, c.flag
+			al := setsOf(r).alphabet
+			var idx []uint32
+			for _, ch := range c.allow {
+				for i, a := range al {
+					if a == ch {
+						idx = append(idx, uint32(i))
+					}
+				}
+			}
+			if len(idx) == 0 {
+				continue
+			}
+			var t []uint32
+			for i := 0; i < 2*L+4; i++ {
+				t = append(t, idx[(i/L+i)%len(idx)])
+			}
+			x.emit("chargen r=%s T=2 fr=1:1 tape=%s", r.enc(), encWords(t))
+		}
+	}
+	for _, c := range cases {
+		for _, L := range []int{1, 2, 3} {
+			var r recipeSpec
+			r.L, r.ac, r.rs = L, c.allow, []string{c.req}
+			al := setsOf(r).alphabet
+			var idx []uint32
+			for _, ch := range c.pick {
+				for i, a := range al {
+					if a == ch {
+						idx = append(idx, uint32(i))
+					}
+				}
+			}
+			if len(idx) == 0 {
+				continue
+			}
+			var t []uint32
+			for i := 0; i < 2*L+4; i++ {
+				t = append(t, idx[i%len(idx)])
+			}
+			x.emit("chargen r=%s T=2 fr=1:1 tape=%s", r.enc(), encWords(t))
+			x.emit("charinfo r=%s", r.enc())
+		}
+	}
+}
+
+// pickCellOps: the word pick on its own — Length 1, no capitalisation, constant separator — over a
+// complete cell of raw words: every kept word, the empty word included when the list has one,
+// is selected by exactly one raw word of the cell.
+func (x *gen) pickCellOps() {
+	words := x.wordList(false)
+	if len(words) > 12 {
+		words = words[:12]
+	}
+	if x.g.chance(60) {
+		words = append(words, "")
+	}
+	if x.g.chance(30) {
+		words = []string{"", []string{"a", "b", "日本"}[x.g.intn(3)]}
+	}
+	sort.Strings(words)
+	scheme := []string{"none", "", "bogus"}[x.g.intn(3)]
+	sep := []string{"char:_", "char:45", "preset:none", "const:46.46"}[x.g.intn(4)]
+	x.emit("wlcell words=%s titles=%s L=1 sep=%s cap=%s", encList(words), encList(wordTitles(words)), sep, encCps(scheme))
+}
+
+// emptyWordBlock: lists that contain the empty word (NewWordList accepts and counts it), under
+// every scheme, with the empty word drawn at every position — capitalised positions included. The
+// answer is a password or an error, never a panic.
+func (x *gen) emptyWordBlock() {
+	lists := [][]string{{""}, {"", "a"}, {"", "b", "c"}, {"", "日本"}, {"", "Polish", "polish"}}
+	for _, ws := range lists {
+		sort.Strings(ws)
+		n := uint32(len(uniq(ws)))
+		for _, scheme := range []string{"none", "first", "all", "random", "one"} {
+			for _, L := range []int{1, 2, 3} {
+				for pos := 0; pos < L; pos++ {
+					var t []uint32
+					switch scheme {
+					case "one":
+						t = append(t, uint32(pos))
+					case "random":
+						for i := 0; i < L; i++ {
+							t = append(t, 1)
+						}
+					}
+					for i := 0; i < L; i++ {
+						if i == pos {
+							t = append(t, 0) // the empty word sorts first
+						} else {
+							t = append(t, (n-1)%n)
+						}
+					}
+					sep := []string{"char:_", "char:45", "preset:none"}[(pos+L)%3]
+					x.emit("wlgen words=%s titles=%s L=%d sep=%s cap=%s tape=%s", encList(ws), encList(wordTitles(ws)), L, sep, encCps(scheme), encWords(append(t, 0, 0, 0, 0)))
+				}
+			}
+		}
+	}
+}
+
+// slowSourceOps: the same call on the same bytes from a source that takes its time — a pause before
+// one of its reads — gives the same result: nothing in a recipe or in the random bytes says what
+// time it is. The first candidate misses the requirement, the pause comes before the retry.
+func (x *gen) slowSourceOps(pauses []int) {
+	for i, ms := range pauses {
+		var r recipeSpec
+		r.L, r.ac, r.rs = 3, "x", []string{"ab"}
+		// sorted alphabet a b x: first candidate xxx (rejected), second axx
+		t := []uint32{2, 2, 2, 0, 2, 2, 1, 1, 1, 1}
+		// the pause inside the first attempt (so that it is over when the retry is considered) and, in
+		// the thorough tier, at the first read of the retry as well
+		x.emit("chargen r=%s T=5 fr=1:1 tape=%s slow=2:%d", r.enc(), encWords(t), ms)
+		if x.thorough() {
+			x.emit("chargen r=%s T=5 fr=1:1 tape=%s slow=%d:%d", r.enc(), encWords(t), 4+i%2, ms)
+		}
+		ws := []string{"uno", "dos", "tres"}
+		x.emit("wlgen words=%s titles=%s L=3 sep=recipe:1/0/0/0/%s/%s/_ cap=%s T=5 fr=1:1 tape=1.2.0.2.0.1.1.1.1.1.1.1 slow=%d:%d",
+			encList(ws), encList(wordTitles(ws)), encCps("x"), encCps("ab"), encCps("none"), 2, ms)
+	}
+}
+
+// oneCellOps: the 'one' position pick on a list that mixes words with and without a capital form,
+// as a complete cell of position draws for every word tuple: no position is capitalised by two
+// different raw words of the cell.
+func (x *gen) oneCellOps() {
+	pools := [][]string{{"42", "x", "y"}, {"日本", "ab"}, {"4", "5", "z"}, {"Polish", "amber", "bee"}, {"", "a", "b"}, {"ß", "x"}}
+	words := append([]string{}, pools[x.g.intn(len(pools))]...)
+	sort.Strings(words)
+	L := 2 + x.g.intn(2)
+	if len(words) == 3 && L == 3 && x.g.chance(50) {
+		L = 2
+	}
+	sep := []string{"char:_", "char:45", "preset:none"}[x.g.intn(3)]
+	x.emit("wlcell words=%s titles=%s L=%d sep=%s cap=%s", encList(words), encList(wordTitles(words)), L, sep, encCps("one"))
+}
+
+// reassignOps: the program assigns one exported preset variable; every OTHER preset, taken before
+// the assignment, still yields what its name says (a preset is a value, not a reference to its
+// neighbours).
+func (x *gen) reassignOps() {
+	names := []string{"none", "d1", "d2", "dna1", "dna2", "sym", "ds"}
+	ws := []string{"uno", "dos", "tres"}
+	for _, re := range names {
+		for _, use := range names {
+			if re == use {
+				continue
+			}
+			t := make([]uint32, 16)
+			for i := range t {
+				t[i] = uint32(x.g.intn(6))
+			}
+			op := "wlgen"
+			if x.g.chance(30) {
+				op = "wlent"
+			}
+			x.emit("%s words=%s titles=%s L=3 sep=preset:%s cap=%s tape=%s reassign=%s", op, encList(ws), encList(wordTitles(ws)), use, encCps("none"), encWords(t), re)
+		}
+	}
+}
+
 func (x *gen) wlnewOp(reps int) {
 	words := x.wordList(true)
 	if x.g.chance(3) {
@@ -1193,6 +1377,9 @@ func (x *gen) flagArg(args *[]string, name, value string) {
 var spaceRuns = []string{" ", "\n", "\r\n", "\t", "\u00a0", "\u3000", "\u2028", "  \n\n", "\v", "\f", "\u0085", "\u1680", "\u2003",
 	"\u202f", "\u205f", "\u2029", " \t \r\n", "\u2000\u200a"}
 
+var fileNames = []string{"list$A.txt", "price$USD.txt", "w${A}x.txt", "$A", "${A}", "~words.txt", "a b.txt", "%41.txt", "w*.txt", "w?.txt", "é.txt", "w#1.txt",
+	"[a]bc.txt", "w%s.txt", "w\\x.txt", "$HOME.txt", "w$.txt", "two  spaces.txt", "trailing.txt ", "w;x.txt", "w'q.txt"}
+
 func (x *gen) cliFileTextOp() {
 	var words []string
 	for _, w := range x.wordList(false) {
@@ -1235,6 +1422,14 @@ func (x *gen) cliFileTextOp() {
 	pipe := ""
 	if x.g.chance(25) {
 		pipe = " pipe=1"
+	}
+	// the file is the one the argument names, character for character: a name is not a pattern, a
+	// template or a shell word, whatever the environment holds
+	if pipe == "" && x.g.chance(35) {
+		pipe = " fname=" + encCps(fileNames[x.g.intn(len(fileNames))])
+		if x.g.chance(50) {
+			pipe += " env=1"
+		}
 	}
 	x.emit("cli argv=%s words=%s titles=%s filetext=%s%s", encList(args), encList(words), encList(wordTitles(words)), encCps(text), pipe)
 }
@@ -1625,6 +1820,11 @@ func (x *gen) faultOps() {
 		}
 		line(t[:k], e)
 	}
+	// the source fails once — with an error that calls itself temporary, a timeout, an interrupted
+	// system call, a wrapped one — and would deliver again afterwards: fail closed all the same
+	for k := 0; k <= len(t) && k <= 6; k++ {
+		line(t[:k], fmt.Sprintf(" resume=%d:%s", 1+x.g.intn(8), encWords(x.tape(n, r.L*3, 0))))
+	}
 	words := x.wordList(false)
 	L := 1 + x.g.intn(3)
 	sep := x.sepSpec()
@@ -1653,6 +1853,9 @@ func (x *gen) faultOps() {
 		}
 		wline(wt[:k], e)
 	}
+	for k := 0; k <= len(wt) && k <= 4; k++ {
+		wline(wt[:k], fmt.Sprintf(" resume=%d:%s", 1+x.g.intn(8), encWords(x.wlTape(len(words), L, sep, 0))))
+	}
 }
 
 // ---------- op sets per property
@@ -1679,7 +1882,10 @@ func generate(prop, tier string, seed uint64) []string {
 		// the draws as the generators make them: characters, words, the 'one' position, coin flips
 		rep(40, func() { x.chargenOp(x.recipe(1), "") })
 		rep(60, func() { x.longCapsOp() })
+		rep(25, x.pickCellOps)
+		rep(12, x.oneCellOps)
 	case "C02":
+		x.metaCharBlock()
 		x.chunkedOps(15)
 		for i := 0; i < 10*scale/scale; i++ {
 			x.manySetsOp()
@@ -1689,6 +1895,7 @@ func generate(prop, tier string, seed uint64) []string {
 		rep(400, func() { x.chargenOp(x.recipe(1), "") })
 		rep(300, func() { x.chargenOp(x.recipe(0), "") })
 	case "C03":
+		x.metaCharBlock()
 		x.soleWitnessOps()
 		for i := 0; i < 10*scale/scale; i++ {
 			x.manySetsOp()
@@ -1706,8 +1913,11 @@ func generate(prop, tier string, seed uint64) []string {
 		x.budgetBoundaryOps()
 		rep(40, x.longCapsOp)
 		rep(25, func() { x.wlCellOps(1200) })
+		rep(25, x.pickCellOps)
+		rep(12, x.oneCellOps)
 		rep(700, func() { x.wlgenOp("wlgen", "") })
 	case "C05":
+		rep(12, x.oneCellOps)
 		rep(1500, func() { x.wlgenOp("wlgen", "") })
 		x.emit("wlgen words=_ titles=_ L=3 sep=char:_ cap=%s tape=0.0.0", encCps("none")) // D8
 	case "C06":
@@ -1770,6 +1980,8 @@ func generate(prop, tier string, seed uint64) []string {
 		rep(3000, x.tokenizeOp)
 		rep(800, x.explodeOp)
 	case "C13":
+		x.emptyWordBlock()
+		x.metaCharBlock()
 		x.thirteenSetsOps()
 		x.soleWitnessOps()
 		x.budgetBoundaryOps()
@@ -1800,13 +2012,29 @@ func generate(prop, tier string, seed uint64) []string {
 			x.emit("wlgen words=%s titles=%s L=4 sep=char:_ cap=%s tape=1.2.3.4.5.6.7.8.9.10 sfnone=reassigned", encList([]string{"uno", "dos", "tres"}), encList([]string{"Uno", "Dos", "Tres"}), encCps(sch))
 		}
 		x.budgetBoundaryOps()
+		x.reassignOps()
 		rep(8, x.collisionPairOps)
 		rep(6, x.sepHistoryOps)
 		// calls with another complete call made in the middle of them
 		rep(60, func() { x.chargenOp(x.recipe(x.g.intn(4)), fmt.Sprintf(" reenter=%d", 1+x.g.intn(6))) })
 		rep(60, func() { x.wlgenOp("wlgen", fmt.Sprintf(" reenter=%d", 1+x.g.intn(6))) })
 		rep(60, func() { x.historyOps(25) })
+		if x.thorough() {
+			x.slowSourceOps([]int{2500, 6000, 12000})
+		} else {
+			x.slowSourceOps([]int{2500})
+		}
 	case "C16":
+		x.reassignOps()
+		// the bounded draw at the sizes of the preset alphabets (10, 7, 6, 16) and of the default
+		// alphabet, on raw words at and around the rejection limit
+		for _, n := range []uint32{10, 7, 6, 16, 61, 26, 52, 62} {
+			lim := uint32((uint64(1) << 32) / uint64(n) * uint64(n)) // 0 for powers of two (wraps)
+			for _, d := range []uint32{0, 1, 2} {
+				x.emit("draw n=%d tape=%s", n, encWords([]uint32{lim - 1 + d, lim + d, 3, 2, 1}))
+			}
+			x.emit("draw n=%d tape=%s", n, encWords([]uint32{0xFFFFFFFF, 0xFFFFFFFF, 0xFFFFFFFE, 5, 1}))
+		}
 		// the presets on a source that answers in short reads
 		for _, sp := range []string{"preset:d1", "preset:d2", "preset:sym", "preset:ds", "preset:dna1"} {
 			t := make([]uint32, 24)
